@@ -415,3 +415,36 @@ Proof.
   - destruct (wr_size wr <? _); [destruct (finalize _ _ _ _)|]; intros H; inv H; discriminate.
   - destruct (osize w o <? _); intros H; inv H; discriminate.
 Qed.
+
+(** FindMissing refresh of one digest: a counted verdict means the location
+    the digest resolved to was read, failed validation, and the boundary now
+    lies above its block *)
+Lemma detect_fm_refresh_one w s o i r s' : fm_refresh_one w s o i = (r, s') -> s_negs s' <> s_negs s ->
+  r = Err cInternal /\ s_negs s' = S (s_negs s) /\
+  exists k l, least_specific s (lookup_keys w o i) = Some (k, l) /\ l_abs l + 1 <= s_tbr s'.
+Proof.
+  unfold fm_refresh_one.
+  destruct (least_specific s (lookup_keys w o i)) as [[k l]|]; [|intros H; inv H; congruence].
+  destruct (negb (needs_refresh s l)); [intros H; inv H; congruence|].
+  match goal with |- context [match ?d with Some s1 => (Ok true, s1) | None => _ end] => destruct d as [s1|] eqn:D end.
+  { intros H; inv H. destruct (c_hier (w_cfg w)); [|discriminate].
+    destruct (sync_from_canonical s o k) as [[cl s2]|] eqn:E; [|discriminate]. inv D.
+    apply sync_from_canonical_sfr in E as [-> _]. cbn. congruence. }
+  clear D. destruct (block_of_loc s l) as [b|]; [|intros H; inv H; congruence].
+  destruct (ocn_put (w_cfg w) (pin s (b_uid b)) (l_size l)) as [[wr|e] s1] eqn:E; apply ocn_put_afr in E as [_ _ En _ _ _].
+  2:{ intros H; inv H. rewrite (xf_negs _ _ (unpin_xfr _ _ _)), En. cbn. congruence. }
+  destruct (read_validated w s1 o (b_uid b) l) as [[valid bytes] s2] eqn:R. destruct valid.
+  - apply read_validated_true in R; subst s2.
+    destruct (finalize _ _ wr true) as [[nl|e] s3] eqn:F; apply finalize_xfr in F as [_ _ Fn _ _ _ _];
+      intros H; inv H; intros Hn; exfalso; apply Hn.
+    + rewrite (if_negs _ _ (index_put_all_ifr _ _ _)), Fn.
+      rewrite (xf_negs _ _ (unpin_xfr _ _ _)), (xf_negs _ _ (write_block_xfr _ _ _ _)). exact En.
+    + rewrite Fn, (xf_negs _ _ (unpin_xfr _ _ _)), (xf_negs _ _ (write_block_xfr _ _ _ _)). exact En.
+  - apply read_validated_false_dfr in R as [_ _ Rn Rt _ _].
+    destruct (finalize _ _ wr false) as [[nl|e] s3] eqn:F.
+    { apply finalize_ok in F as [F _]. discriminate. }
+    apply finalize_xfr in F as [_ _ Fn Ft _ _ _]. intros H; inv H. intros _.
+    split; [reflexivity|]. split.
+    + rewrite Fn, (xf_negs _ _ (unpin_xfr _ _ _)), Rn. f_equal. exact En.
+    + exists k, l. split; [reflexivity|]. rewrite Ft, (xf_tbr _ _ (unpin_xfr _ _ _)), Rt. lia.
+Qed.
